@@ -256,7 +256,7 @@ def resolve_case(fa, cid, wraw, rraw, datum, equal):
 def run_c08(ctx, fa):
     from . import mcheck
     # M: identity, reordering, skipping, missing default, promotion and same-type-before-promotion on the bounded universe of MC_Binary
-    mcheck.model_check(ctx, "MC_Binary", {"Depth": 1}, ["InvResolveIdentity", "InvResolveReorder", "InvResolveSkip", "InvResolveMissing",
+    mcheck.model_check(ctx, "MC_Binary", {"Depth": 1 if ctx.quick() else 2}, ["InvResolveIdentity", "InvResolveReorder", "InvResolveSkip", "InvResolveMissing",
                                                         "InvResolvePromote", "InvResolveUnion"], "resolve")
     rnd = ctx.sub_rnd("c08")
     n = 900 if ctx.quick() else 12000
